@@ -83,6 +83,25 @@ Theorem C06_JacInv_SE23_right eps a b c x y z d e f : 0 < eps -> eps < x * x + y
 Proof. intros H. exact (se23_rjac_rjacinv eps H a b c x y z d e f). Qed.
 Print Assumptions C06_JacInv_SE23_right.
 
+(* (the imports below shadow mmul / mid with the function-matrix versions of Ode.v: nothing after this point uses the list versions unqualified) *)
+From Coquelicot Require Import Coquelicot.
+From Manif Require Import Ode ExpSpec Exp_SO3 Series_SO3.
+(* SO3, generic branch: the series characterisations of the property.  For SO3 ad_t = hat(t) = smallAdj(t).
+   t.ljac() = sum_k ad_t^k/(k+1)!, t.rjac() = sum_k (-ad_t)^k/(k+1)! (entrywise limits; derived from the SE3 matrix exponential:
+   the last column of exp [[W, rho]; [0, 0]] is sum_k W^k rho/(k+1)! = V rho), and Adj(exp t) = exp(ad_t) (C02's series) *)
+Theorem C06_ljac_series_SO3 eps x y z i j : 0 < eps -> eps < x * x + y * y + z * z -> (i <= 2)%nat -> (j <= 2)%nat ->
+  is_series (fun k => mpow 2 (fmat 2 (g_smallAdj (SO3 RS eps) [x; y; z])) k i j / INR (fact (S k)))
+                              (@mnth RS (g_ljac (SO3 RS eps) [x; y; z]) i j).
+Proof. intros H. exact (so3_ljac_series eps H x y z i j). Qed.
+Theorem C06_rjac_series_SO3 eps x y z i j : 0 < eps -> eps < x * x + y * y + z * z -> (i <= 2)%nat -> (j <= 2)%nat ->
+  is_series (fun k => mpow 2 (fmat 2 (g_smallAdj (SO3 RS eps) [- x; - y; - z])) k i j / INR (fact (S k)))
+                              (@mnth RS (g_rjac (SO3 RS eps) [x; y; z]) i j).
+Proof. intros H. exact (so3_rjac_series eps H x y z i j). Qed.
+Theorem C06_Adj_exp_is_exp_ad_SO3 eps x y z : 0 < eps -> eps < x * x + y * y + z * z ->
+  MatExp 2 (g_smallAdj (SO3 RS eps) [x; y; z]) (g_matrep (SO3 RS eps) (g_exp (SO3 RS eps) [x; y; z])).
+Proof. exact (SO3_exp_matexp eps x y z). Qed.
+Print Assumptions C06_ljac_series_SO3.
+
 (* Bundles: for ANY list of element groups (packs: BundleCore.v) the Bundle's adj() — the block-diagonal matrix of the
    elements' adjoints, as Bundle_base.h writes it — is a homomorphism: Adj(X*Y) = Adj(X) Adj(Y), Adj(Identity) = I, and
    Adj(X^-1) is the two-sided inverse of Adj(X). *)
